@@ -563,6 +563,9 @@ def run(pid, tier):
         if sync_found is None:
             vlib.proof_failure(rep, "protocol harness build failed (callback log during synchronisation)")
             sync_found = []
+        af = rep.cov.get("sync_callback_log_allocfail", {})
+        if not sync_found and af and af.get("runs_with_a_refused_request", 0) < 10:
+            unmet.append("callback log under allocation failure: fewer than 10 reloads ran with a refused allocation request (%s)" % af)
         for c, msg in sync_found[:2]:
             rep.violation("oracle_sync", "# property %s fails on the implementation: %s\n# mutation: %s\n%s\n" % (pid, msg, c.meta.get("mut"), "\n".join(c.ops)))
     # crashes: sanitizer / assertion aborts are failing inputs for C01 (validation must answer) and C04
